@@ -1952,12 +1952,23 @@ def _handle_assignment_ast(
             assign_expr = f"__redu_list_assign({target.id}, {expr_c})"
             assign_as_expr_stmt = True
             helpers.add("list")
+        # names a function declared ``global`` live at file scope even when the function
+        # is the first to assign them
+        function_globals: Set[str] = ctx.setdefault("function_declared_globals", set())
+        names_global_in_function = target.id in ctx.get("global_names", set())
+        if target.id not in declared and target.id in function_globals:
+            declared.add(target.id)
         if target.id not in declared:
             declared.add(target.id)
             cpp_type = _cpp_type(inferred_type)
             needs_runtime_assign = False
             init_expr = expr_c
-            if is_global_scope:
+            if names_global_in_function and not is_global_scope:
+                is_global_scope = True
+                function_globals.add(target.id)
+                init_expr = _default_value_for_type(cpp_type)
+                needs_runtime_assign = True
+            elif is_global_scope:
                 if not is_const or expr_uses_names:
                     init_expr = _default_value_for_type(cpp_type)
                     needs_runtime_assign = True
@@ -2419,6 +2430,14 @@ def _parse_simple_lines(
             if main_loop and loop_depth == 1:
                 raise ValueError("cannot break out of the main loop()")
             body.append(BreakStmt())
+            i += 1
+            continue
+
+        if line.startswith("global ") and ctx.get("current_function") is not None:
+            names = [part.strip() for part in line[len("global "):].split(",")]
+            if not all(name.isidentifier() for name in names):
+                raise ValueError("invalid global statement")
+            ctx["global_names"] = set(ctx.get("global_names", set())) | set(names)
             i += 1
             continue
 
@@ -4265,6 +4284,7 @@ def parse(src: str) -> Program:
         "function_signature_aliases": {},
         "function_call_signatures": {},
         "function_primary_signature": {},
+        "function_declared_globals": set(),
         "ultrasonic_measure_calls": set(),
         "ultrasonic_names": set(),
         "ultrasonic_models": {},
